@@ -240,6 +240,21 @@ class C04(Prop):
             for src in ["return Field;", "return 1;", "x = A; return B;", "return len(k);"]:
                 for op in ("exec:0", "run:0"):
                     out.append(Case("run", {"script": vlib.hx(src), "objs": obj, "ops": "prepare:opt;%s;%s" % (op, op)}, "hostile", note=src))
+        # the host keeps ONE record, changes it in place between runs and passes the same pointer every time: every run reads the
+        # record as it is NOW (harness step `pexec`)
+        for _ in range(60 if tier == "thorough" else 12):
+            src = rng.choice(["return [Name, ID];", "function f() { return Name; } return string(Name) + \":\" + string(ID) + \":\" + f();",
+                              "x = ID; function g() { return ID * 2; } return [x, g(), Name, len(Name)];", "if (ID > 10) { return Name; } return ID;"])
+            vals = [(rng.choice(["alpha", "beta", "gamma", "", "héllo"]), rng.choice([0, 1, 22, 333, 70000])) for _ in range(rng.randint(2, 5))]
+            ops = ["prepare:" + rng.choice(["opt", "noopt"])] + ["pexec:%s,%d" % (vlib.hx(n), k) for n, k in vals]
+            exp = {}
+            for j, (n, k) in enumerate(vals):
+                if src.startswith("return [Name"):
+                    exp["o%d.value" % (j + 1)] = enc_value([n, k])
+                elif src.startswith("if"):
+                    exp["o%d.value" % (j + 1)] = enc_value(n if k > 10 else k)
+                exp["o%d.class" % (j + 1)] = "ok"
+            out.append(Case("run", {"script": vlib.hx(src), "objs": "N", "ops": ";".join(ops)}, "same-pointer-changed-in-place", expect=exp, note=src))
         return out
 
     def judge(self, case, go, model):
